@@ -489,6 +489,9 @@ def job_options(job):
             if base.get('grades_a') is not None:
                 gs, gs2 = tuple(base['grades_a']), tuple(base['grades_b'])
             ak, bk = tuple(ref_alg.indices_for_grades[gs]), tuple(ref_alg.indices_for_grades[gs2])
+            if base.get('keys_pairs'):
+                # explicit sparse key patterns (non-blade elements in d >= 6: the general Shirokov inverse, which re-uses its summands)
+                ak, bk = (tuple(k) for k in base['keys_pairs'][it % len(base['keys_pairs'])])
             use_float = False
             av, bv = frac_vals(rng, ak), frac_vals(rng, bk)
             if it % 3 == 1:
